@@ -382,3 +382,99 @@ func gMatchAck(c *Check) {
 }
 
 var _ = types.Typ
+
+// C06.F — follower-side commit clamps and other commit sources.
+func c06Follower(c *Check) {
+	p := c.P
+	commitTo := p.Method("raft", "raftLog", "commitTo")
+	maybeAppend := p.Method("raft", "raftLog", "maybeAppend")
+	matchTerm := p.Method("raft", "raftLog", "matchTerm")
+	restore := p.Method("raft", "raft", "restore")
+	handleHeartbeat := p.Method("raft", "raft", "handleHeartbeat")
+	logMaybeCommit := p.Method("raft", "raftLog", "maybeCommit")
+	prevF := p.Field("raft", "logSlice", "prev")
+	entsF := p.Field("raft", "logSlice", "entries")
+	eidI := p.Field("raft", "entryID", "index")
+	committedF := p.Field("raft", "raftLog", "committed")
+	raftLogF := p.Field("raft", "raft", "raftLog")
+	matchF := p.Field("tracker", "Progress", "Match")
+	getCommit := p.Method("raftpb", "Message", "GetCommit")
+	msgT := p.Type("raftpb", "Message")
+	if commitTo == nil || maybeAppend == nil || matchTerm == nil {
+		return
+	}
+	hbClamped := false
+	for _, cs := range p.CallsTo(commitTo) {
+		fi := p.Info(cs.Caller)
+		site := p.site(cs.Instr)
+		args := callArgs(cs.Instr)
+		recv := fi.Sym(args[0])
+		arg := fi.Sym(args[1])
+		switch cs.Caller {
+		case maybeAppend:
+			a := fi.Sym(maybeAppend.Params[1])
+			cm := fi.Sym(maybeAppend.Params[2])
+			lastnew := &Sym{K: KBin, Name: "+", Args: []*Sym{FieldOf(FieldOf(a, prevF), eidI), {K: KBuiltin, Name: "len", Args: []*Sym{FieldOf(a, entsF)}}}}
+			f := fi.FactsAt(cs.Instr)
+			ok := f.ImpliesCmp(arg, "<=", lastnew) && f.ImpliesCmp(arg, "<=", cm)
+			c.Result(ok, "C06.F1", "follower commit clamp", fnName(cs.Caller), site, "commitTo(x) with x <= leader's commit and x <= prev.index+len(entries) (the prefix just verified)", "argument "+arg.Key())
+			tested := f.WasTested(ReqBool(CallSym(matchTerm, recv, FieldOf(a, prevF)), true))
+			c.Result(tested, "C06.F1", "follower commit only behind a matching prev", fnName(cs.Caller), site, "matchTerm(a.prev) was tested true on every path", strings.Join(f.Describe(), "; "))
+		case logMaybeCommit:
+			// G-COMMIT-LEADER.b
+		case restore:
+			s := fi.Sym(restore.Params[1])
+			okArg := arg.Key() == snapIndexSym(p, s).Key()
+			id := &Sym{K: KLit, Typ: p.Type("raft", "entryID"), Args: []*Sym{snapTermSym(p, s), snapIndexSym(p, s)}}
+			pr := p.Prove(fi, cs.Instr, []Req{ReqBool(CallSym(matchTerm, recv, id), true)})
+			c.Result(okArg && pr.OK, "C06.F3", "snapshot fast-forward of commit", fnName(cs.Caller), site, "commitTo(s.index) only when the log matches (s.term, s.index)", describeProof(pr), pr.Chain...)
+		case handleHeartbeat:
+			m := fi.Sym(handleHeartbeat.Params[1])
+			if arg.Key() == CallSym(getCommit, m).Key() {
+				c.Ok("C06.F2", "heartbeat commit taken as sent", fnName(cs.Caller), site, "receiver trusts m.Commit; the sender must clamp it (checked at the MsgHeartbeat literal)", arg.Key())
+			} else {
+				hbClamped = true
+				c.Ok("C06.F2", "heartbeat commit transformed by the receiver", fnName(cs.Caller), site, "receiver clamps itself; sender obligation relaxed", arg.Key())
+			}
+		default:
+			c.add(&Obligation{Rule: "C06.X", Construct: "unclassified commit source", Func: fnName(cs.Caller), Site: site, Status: StInfo, Detail: "inherits G-COMMIT-MONO/BOUND through lifting; listed for the reader"})
+		}
+	}
+	// heartbeat and append literals
+	hb := p.ConstVal("raftpb", "MsgHeartbeat")
+	app := p.ConstVal("raftpb", "MsgApp")
+	for _, lit := range p.Lits(msgT) {
+		tc, ok := lit.TypeConsts(p)
+		if !ok || len(tc) != 1 {
+			continue
+		}
+		fi := p.Info(lit.Fn)
+		site := p.site(lit.Alloc)
+		cm := lit.FieldSym(p, "Commit")
+		switch tc[0] {
+		case hb:
+			if cm == nil {
+				c.Ok("C06.F2", "MsgHeartbeat without Commit", fnName(lit.Fn), site, "no commit index carried", "")
+				continue
+			}
+			r := fi.Sym(lit.Fn.Params[0])
+			f := fi.FactsAt(lit.Alloc)
+			okC := f.ImpliesCmp(cm, "<=", FieldOf(FieldOf(r, raftLogF), committedF))
+			okM := false
+			var mt *Sym
+			cm.Walk(func(x *Sym) {
+				if x.K == KField && x.Fld == matchF {
+					mt = x
+				}
+			})
+			if mt != nil {
+				okM = f.ImpliesCmp(cm, "<=", mt)
+			}
+			c.Result(okC && (okM || hbClamped), "C06.F2", "MsgHeartbeat.Commit clamp", fnName(lit.Fn), site, "Commit <= min(pr.Match, committed): never beyond what the follower is known to hold", "Commit <- "+cm.Key())
+		case app:
+			r := fi.Sym(lit.Fn.Params[0])
+			ok := cm != nil && cm.Key() == FieldOf(FieldOf(r, raftLogF), committedF).Key()
+			c.Result(ok, "C06.F4", "MsgApp.Commit", fnName(lit.Fn), site, "Commit <- r.raftLog.committed", fmt.Sprintf("%v", cm))
+		}
+	}
+}
